@@ -5,7 +5,7 @@ from hypothesis import strategies as st
 
 import odml
 
-from .. import hyp
+from .. import env, hyp
 from ..core import failure
 
 PROPERTY = "C14"
@@ -359,17 +359,23 @@ def run_exhaustive(shard, ctx):
             if idx % shard["of"] != shard["i"]:
                 continue
             tag = "forest#%d/rot%d" % (fi, rot)
-            doc, nodes = build_tree(forest, rot)
             fails = []
             nt = set()
-            n = check_paths(doc, nodes, fails, nt, tag)
-            n += check_traversals(doc, nodes, fails, nt, tag)
-            n += check_find(doc, nodes, fails, tag, full=(rot < shard["find_rots"]))
+            n = 0
+            try:
+                with env.watchdog():
+                    doc, nodes = build_tree(forest, rot)
+                    n = check_paths(doc, nodes, fails, nt, tag)
+                    n += check_traversals(doc, nodes, fails, nt, tag)
+                    n += check_find(doc, nodes, fails, tag, full=(rot < shard["find_rots"]))
+            except env.CaseHang:
+                fails.append(failure("hang.no_return", "%s: a path / traversal query did not return within "
+                                     "%d s" % (tag, env.HANG_SECONDS)))
             ctx.tick(n, ["exhaustive"])
             for k in nt:
                 ctx.add_nt(k)
             case = {"forest": fi, "rot": rot}
-            if fi % 40 == 7 and rot == 0:
+            if fi % 40 == 7 and rot == 0 and not fails:
                 ctx.sample({"kind": "exhaustive", "case": case, "shape": repr(forest),
                             "paths": [s.get_path() for s in nodes]})
             if fails:
